@@ -182,7 +182,7 @@ def fix_calls(body, cname, spec, stats):
         k = m.end() - 1
         e = match_close(body, k)
         args = [a.strip() for a in split_args(body[k+1:e])]
-        if self_arg is not None:
+        if self_arg is not None and len(args) + len(defaults) < nparams + (0 if not defaults else 0) and len(args) < nparams:
             args = [self_arg] + args
         missing = nparams - len(args)
         if missing < 0 or missing > len(defaults):
@@ -264,6 +264,8 @@ def extract_function(repo, fn, unit_renames, callees):
                     line=0, diff=[], stats={}, nloops=0)
     path = repo + '/' + fn['file']
     text = open(path, encoding='latin-1').read()
+    if fn.get('macro_body'):
+        text = text.replace('\\\n', ' \n')      # the function lives inside a multi-line #define
     what = fn['cname']
     line, sigtext, body = cut_function(text, fn['locate'], what)
     orig = sigtext + '\n' + body
@@ -338,6 +340,28 @@ def extract_function(repo, fn, unit_renames, callees):
     # calls of extracted callees
     for cname, cs in callees.items():
         body = fix_calls(body, cname, cs, stats)
+    # R6: propagate exceptions out of calls to callees that may throw
+    for cname in fn.get('throwing_callees', []):
+        pos = 0
+        pat = re.compile(r'(?<![\w.>])' + re.escape(cname) + r'\s*\(')
+        while True:
+            m = pat.search(body, pos)
+            if not m: break
+            semi = m.end() - 1; depth = 0
+            while semi < len(body):
+                c = body[semi]
+                if c in '"\'': semi = skip_literal(body, semi); continue
+                if c in '([{': depth += 1
+                elif c in ')]}': depth -= 1
+                elif c == ';' and depth == 0: break
+                semi += 1
+            if depth != 0 or semi >= len(body):
+                raise ExtractionDrift("%s: call of throwing callee %s is not a simple statement" % (what, cname))
+            rv = fn.get('throw_ret', '')
+            ins = ' if(verif_thrown) return%s;' % ((' ' + rv) if rv else '')
+            body = body[:semi+1] + ins + body[semi+1:]
+            stats['R6.propagate'] = stats.get('R6.propagate', 0) + 1
+            pos = semi + 1 + len(ins)
     # post rules (see the C-ified text)
     body = apply_rules(body, fn.get('post_rewrites', []), what, stats)
     # loop contracts
